@@ -61,6 +61,43 @@ class Lock:
         self.f.close()
 
 
+# ------------------------------------------------------------------------------------------ DRIFT
+# Change-triggered deepening. baseline_fingerprints.json (committed; written by tools/mkfingerprints.py on the tree the
+# checks were last validated on) holds a hash of every library source with comments and white space removed. When the
+# tree under check differs from it, the QUICK tier runs the harnesses at THOROUGH depth (all harness configurations of
+# the thorough tier, thorough input volume, soaks): a change is exactly the moment to search deeply. It never changes a
+# verdict by itself — only how far the search goes — so a harmless rewrite costs time, not an alarm.
+def _normalise_source(text):
+    text = re.sub(r"/\*.*?\*/", " ", text, flags=re.S)
+    text = re.sub(r"//[^\n]*", " ", text)
+    return re.sub(r"\s+", " ", text).strip()
+
+
+def source_fingerprints(repo):
+    fp = {}
+    for top in ("lib", "include"):
+        for root, _dirs, files in os.walk(os.path.join(repo, top)):
+            for f in sorted(files):
+                if f.endswith((".cpp", ".h", ".hpp", ".c", ".cc", ".inc")):
+                    path = os.path.join(root, f)
+                    try:
+                        txt = open(path, encoding="utf-8", errors="replace", newline="").read().replace("\r\n", "\n")
+                    except OSError:
+                        continue
+                    fp[os.path.relpath(path, repo)] = hashlib.sha256(_normalise_source(txt).encode()).hexdigest()[:20]
+    return fp
+
+
+def source_drift(repo):
+    """files whose normalised content differs from the validated baseline (None if there is no baseline)"""
+    try:
+        base = json.load(open(os.path.join(VERIF, "baseline_fingerprints.json")))["files"]
+    except Exception:
+        return None
+    cur = source_fingerprints(repo)
+    return sorted(k for k in set(base) | set(cur) if base.get(k) != cur.get(k))
+
+
 # ------------------------------------------------------------------------------------------ BUILD
 def build_lib(cfg, cache_size=None):
     c = CONFIGS[cfg]
@@ -334,11 +371,15 @@ def main():
     ev = {"property_id": prop, "tier": tier, "seed": seed, "level": "proof", "coverage": {}, "assumptions": [], "wall_s": 0.0, "violations": 0}
     cov = ev["coverage"]
     broken = []          # broken obligations: (stage, name, detail)
+    drift = source_drift(REPO) if not os.environ.get("VERIF_NO_ESCALATE") else None
+    stier = "thorough" if (tier == "thorough" or drift) else "quick"     # depth of the harness search
+    cov["source_drift"] = {"changed_files": (drift or [])[:40], "search_tier": stier,
+                           "note": "files differing (comments/white space ignored) from baseline_fingerprints.json; any difference makes the quick tier search at thorough depth"}
 
     try:
         # ---- BUILD
         libs = {}
-        harnesses = [hz for hz in cfgp.get("harness", []) if tier in hz.get("tiers", ["quick", "thorough"])]
+        harnesses = [hz for hz in cfgp.get("harness", []) if stier in hz.get("tiers", ["quick", "thorough"])]
         for hz in harnesses:
             key = (hz["cfg"], hz.get("cache_size"))
             if key not in libs:
@@ -397,7 +438,7 @@ def main():
             exe = build_harness(hz["src"], hz["cfg"], lib, hz.get("flags", ()))
             tag = "%s-%s" % (prop, os.path.basename(exe))
             outfile = os.path.join(WORK, "out-%s.txt" % tag)
-            rc, err = run_harness(exe, tier, seed, outfile, replay=None, timeout=hz.get("timeout", 3600 if tier == "quick" else 14400), env=hz.get("env"))
+            rc, err = run_harness(exe, stier, seed, outfile, replay=None, timeout=hz.get("timeout", 3600 if stier == "quick" else 14400), env=hz.get("env"))
             cases, fails, stats, smp = parse_harness(outfile)
             samples += smp
             for k, v in stats.items():
